@@ -1251,10 +1251,17 @@ def resolve_unversioned_parent(tt, path_tree, c_type, trans_id):
         return
     if file_id is None:
         # The directory never had a file id (it is new, or unversioned in the
-        # tree): let the transform give it a fresh one.
-        tt.version_file(trans_id, source=(tt._tree, None))
-    else:
-        tt.version_file(trans_id, file_id=file_id)
+        # tree): give it a fresh one. Derive it from the final name only: the
+        # final path may not be defined yet, because parent loops are resolved
+        # later in the same pass.
+        from bzrformats import generate_ids
+
+        try:
+            name = tt.final_name(trans_id)
+        except NoFinalPath:
+            name = ""
+        file_id = generate_ids.gen_file_id(name)
+    tt.version_file(trans_id, file_id=file_id)
     yield (c_type, "Versioned directory", trans_id)
 
 
